@@ -143,6 +143,7 @@ type poolItem struct {
 }
 
 var pool []poolItem
+var nMutators int // pool[:nMutators] are the directed programs (mutators and big-operand family)
 
 func getPool() []poolItem {
 	if pool != nil {
@@ -155,6 +156,12 @@ func getPool() []poolItem {
 		}
 		pool = append(pool, poolItem{ps, kernel.ValueSpec{JSON: m.In}})
 	}
+	nMutators = len(pool)
+	for _, b := range workload.BigOperands {
+		ps := ProgSpec{Src: b.Src, VarNames: workload.BigVarNames, VarVals: []kernel.ValueSpec{{JSON: workload.BigVarVals[0], Spare: 3}, {JSON: workload.BigVarVals[1]}}}
+		pool = append(pool, poolItem{ps, kernel.ValueSpec{JSON: b.In}})
+	}
+	nMutators = len(pool)
 	for _, f := range workload.Finite {
 		if workload.Deterministic(f.Src) {
 			pool = append(pool, poolItem{ProgSpec{Src: f.Src}, kernel.ValueSpec{JSON: f.In}})
@@ -185,7 +192,7 @@ func genHistory(seed uint64, idx int, tr tiers) Data {
 		var it poolItem
 		switch r.Weighted([]int{5, 3, 3, 2}) {
 		case 0:
-			it = pl[r.Intn(len(mutators))]
+			it = pl[r.Intn(nMutators)]
 		case 1:
 			it = pl[r.Intn(len(pl))]
 		case 3:
